@@ -12,7 +12,9 @@ EXTENDS Naturals, TLC, Json
 CONSTANTS MaxWriters, MaxK, Delays
 \* peerBad (C08): a frame a SHIP peer must never send - k = 1 text frame, 2 one-byte binary, 3 empty binary (all refused: the
 \* connection is closed and the loss reported), 4 a 1 MB binary frame, 5 a ping with payload (both tolerated)
-Events == {"none", "localClose", "localCloseReason", "peerClose", "peerEof", "peerBad", "writeFail", "readFail"}
+\* localCloseLateRead (C13): the peer's frame has been taken off the socket, but the transport read that carries it returns to the
+\* read pump only after the local CloseDataConnection (k = 0 without, k = 1 with a reason) has returned: it must not be delivered
+Events == {"none", "localClose", "localCloseReason", "localCloseLateRead", "peerClose", "peerEof", "peerBad", "writeFail", "readFail"}
 Places == {"start", "idle", "mid", "blockedFull"}
 Rows == { [writers |-> w, msgs |-> m, inbound |-> i, event |-> e, place |-> p, k |-> k, delay |-> d] :
             w \in 1..MaxWriters, m \in 1..2, i \in {0, 2}, e \in Events, p \in Places, k \in 0..MaxK, d \in Delays }
@@ -22,6 +24,7 @@ Rows == { [writers |-> w, msgs |-> m, inbound |-> i, event |-> e, place |-> p, k
 Valid(r) == /\ (r.event \in {"writeFail", "readFail", "peerClose", "peerBad"}) => (r.k > 0)
             /\ (r.event \in {"none", "localClose", "peerEof"}) => (r.k = 0)
             /\ r.event = "localCloseReason" => r.k <= 1
+            /\ r.event = "localCloseLateRead" => (r.k <= 1 /\ r.inbound = 0 /\ r.place = "idle")
             /\ r.event = "peerBad" => (r.k <= 5 /\ r.inbound = 0 /\ r.msgs = 2 /\ r.place \in {"idle", "mid"})
             /\ (r.place = "mid") <=> (r.delay > 0)
             /\ r.place = "blockedFull" => (r.writers >= 2 /\ r.msgs = 2 /\ r.event \notin {"readFail", "none"} /\ r.k <= 2)
